@@ -1,7 +1,7 @@
 (* C03/Extract.v - extraction of the reference semantics and the literal codec (ExtrOcamlBasic only). *)
 Require Extraction.
 Require Import ExtrOcamlBasic.
-From Morfuse Require Import C03.Ast C03.Codec C03.Generated C03.Sem.
+From Morfuse Require Import C03.Ast C03.Codec C03.Generated C03.Sem C03.Compile.
 Definition lit_roundtrip (v : BinNums.Z) := decode dec_table (encode enc_table enc_default (lit_path lex_bits gram_bits emit_bits arg_bits v)).
 Definition lit_negfold (v : BinNums.Z) := neg_fold enc_table enc_default fold_table dec_table v.
-Extraction "C03_model.ml" run_program lit_roundtrip lit_negfold.
+Extraction "C03_model.ml" run_program lit_roundtrip lit_negfold compile aeval vm_run.
